@@ -32,6 +32,7 @@ pub fn main(args: &[String]) -> i32 {
         "worker" => worker(args),
         "shrink" => shrink_cmd(args),
         "replay" => replay_cmd(args),
+        "prefix" => prefix_cmd(args),
         "show" => show(args),
         "canary" => crate::entropy::canary().map(|m| {
             println!("{m}");
@@ -464,8 +465,23 @@ fn check(args: &[String]) -> Result<i32, String> {
             let path = format!("{vd}/replays/{id}-{seed}-{run}.json");
             let o = Command::new(&exe).args(["shrink", &id, &seed.to_string(), &run.to_string(), &path]).output().map_err(|e| e.to_string())?;
             if o.status.code() != Some(0) {
+                // Not reproducible from its seed alone: the code under test may keep process-wide state (statics, caches,
+                // one-time initialisation) so that a run depends on the runs the same worker process executed before.
+                // Re-execute that worker's whole prefix in a fresh process; if the violation is back, that is the finding.
+                let offset = run % workers;
+                let o3 = Command::new(&exe)
+                    .args(["prefix", &id, &seed.to_string(), &offset.to_string(), &workers.to_string(), &run.to_string(), &path])
+                    .output()
+                    .map_err(|e| e.to_string())?;
+                if o3.status.code() == Some(0) {
+                    let o4 = Command::new(&exe).args(["replay", &path]).output().map_err(|e| e.to_string())?;
+                    if o4.status.code() == Some(1) {
+                        reported = Some((format!("{class}:needs_process_history"), path));
+                        break;
+                    }
+                }
                 return Err(format!(
-                    "violation at run {run} ({class}) did not reproduce from its seed in a fresh process: {}{}",
+                    "violation at run {run} ({class}) did not reproduce, neither from its seed nor from its worker's run prefix, in a fresh process: {}{}",
                     String::from_utf8_lossy(&o.stdout),
                     String::from_utf8_lossy(&o.stderr)
                 ));
@@ -659,6 +675,52 @@ fn shrink_cmd(args: &[String]) -> Result<i32, String> {
     Ok(0)
 }
 
+/// prefix <ID> <seed> <offset> <stride> <upto> <out>: execute runs offset, offset+stride, .. upto in this one process
+fn run_prefix(p: &dyn Prop, id: &str, seed: u64, offset: u64, stride: u64, upto: u64) -> Result<Option<(String, String)>, String> {
+    let mut run = offset;
+    let mut ctr = Ctr::new();
+    while run < upto {
+        let sc = p.gen(run_seed(seed, id, run));
+        let _ = p.exec(&sc, &mut ctr)?;
+        run += stride;
+    }
+    let sc = p.gen(run_seed(seed, id, upto));
+    class_of(p, &sc)
+}
+
+fn prefix_cmd(args: &[String]) -> Result<i32, String> {
+    let id = &args[2];
+    let seed: u64 = args[3].parse().map_err(|_| "seed")?;
+    let offset: u64 = args[4].parse().map_err(|_| "offset")?;
+    let stride: u64 = args[5].parse().map_err(|_| "stride")?;
+    let upto: u64 = args[6].parse().map_err(|_| "upto")?;
+    let out = &args[7];
+    let p = prop(id)?;
+    crate::quiet_panics();
+    let Some((class, detail)) = run_prefix(p.as_ref(), id, seed, offset, stride, upto)? else {
+        println!("run {upto} does not fail after its worker's prefix either");
+        return Ok(3);
+    };
+    let sc = p.gen(run_seed(seed, id, upto));
+    let j = J::obj()
+        .set("property", J::s(id))
+        .set("seed", J::Int(seed as i64))
+        .set("run", J::Int(upto as i64))
+        .set("class", J::s(format!("{class}:needs_process_history")))
+        .set("witness", J::s(format!("{:016x}", hash_str(&format!("{id}/{seed}/{offset}/{stride}/{upto}")))))
+        .set(
+            "detail",
+            J::s(format!(
+                "This scenario holds when executed alone in a fresh process and fails after the runs {offset}, {}, .. (stride {stride}) that the same worker process executed before it: the code under test carries process-wide state from one call to the next. {detail}",
+                offset + stride
+            )),
+        )
+        .set("worker_prefix", J::obj().set("offset", J::Int(offset as i64)).set("stride", J::Int(stride as i64)).set("upto", J::Int(upto as i64)))
+        .set("scenario", sc.to_j());
+    std::fs::write(out, j.pretty()).map_err(|e| format!("{out}: {e}"))?;
+    Ok(0)
+}
+
 fn replay_cmd(args: &[String]) -> Result<i32, String> {
     let path = args.get(2).ok_or("replay <file>")?;
     let txt = std::fs::read_to_string(path).map_err(|e| format!("{path}: {e}"))?;
@@ -666,6 +728,22 @@ fn replay_cmd(args: &[String]) -> Result<i32, String> {
     let id = j.str_of("property")?;
     let p = prop(&id)?;
     crate::quiet_panics();
+    if let Some(w) = j.get("worker_prefix") {
+        let seed = j.int_of("seed")? as u64;
+        let r = run_prefix(p.as_ref(), &id, seed, w.int_of("offset")? as u64, w.int_of("stride")? as u64, w.int_of("upto")? as u64)?;
+        return Ok(match r {
+            Some((class, detail)) => {
+                println!("REPLAYED class={class}:needs_process_history");
+                println!("{detail}");
+                println!("VIOLATION property={id} replay={path}");
+                1
+            }
+            None => {
+                println!("replay of {path}: property {id} holds on this run prefix");
+                0
+            }
+        });
+    }
     let sc = Scenario::from_j(j.get("scenario").ok_or("no scenario")?)?;
     {
         // a scenario recorded because a worker hung must not hang the replay: wall-clock safety net
